@@ -34,12 +34,12 @@ fn work_factor(id: &str) -> f64 {
     match id {
         "C01" => 25.0,
         "C02" => 120.0,
-        "C03" => 15.0,
+        "C03" => 13.0,
         "C04" => 3.0,
-        "C05" => 25.0,
+        "C05" => 20.0,
         "C06" => 25.0,
         "C07" => 25.0,
-        "C08" => 25.0,
+        "C08" => 22.0,
         "C09" => 12.0,
         "C10" => 10.0,
         "C11" => 60.0,
